@@ -125,14 +125,25 @@ Proof.
   destruct (alookup n (st_fs s0)); cbn [fst]; [|reflexivity]. rewrite ov_scan_stream. reflexivity.
 Qed.
 
-Lemma ov_step s o : ov s (fst (step E s o)).
+Lemma printrec_as_print_osfile s d rec : step E s (PrintRec d rec) = step E s (Print d [rec]).
 Proof.
-  destruct o as [d ps|n|[n|]|c|n|c| |code| |n]; cbn [step].
-  - pose proof (ov_get_output_stream s d) as H1. destruct (get_output_stream E s d) as [s1 [[|n]|]]; cbn [fst] in *; auto.
+  cbn [step]. unfold step_print. destruct (get_output_stream E s d) as [s1 [[|n]|]]; auto.
+  unfold write_stdout_rec. rewrite Hmode. reflexivity.
+Qed.
+
+Lemma ov_step_print s d ps : ov s (fst (step E s (Print d ps))).
+Proof.
+  cbn [step]. unfold step_print.
+  pose proof (ov_get_output_stream s d) as H1. destruct (get_output_stream E s d) as [s1 [[|n]|]]; cbn [fst] in *; auto.
     + pose proof (ov_write_stdout s1 ps) as H2. destruct (write_stdout E s1 ps) as [s2 [|]]; cbn [fst] in *; unfold ov in *; congruence.
     + destruct (alookup n (st_outs s1)) as [os|]; cbn [fst]; auto.
       set (s1' := add_log s1 _). pose proof (ov_write_ostream s1' n os (concat ps)) as H2.
       destruct (write_ostream _ _ _ _ _) as [s2 os']. cbn [fst] in *. unfold ov in *. cbn [st_overlap set_outs]. rewrite H2. subst s1'. cbn. auto.
+Qed.
+
+Lemma ov_step s o : ov s (fst (step E s o)).
+Proof.
+  destruct o as [d ps|n|[n|]|c|n|c| |code| |n|d rec]; [apply ov_step_print| | | | | | | | | | |rewrite printrec_as_print_osfile; apply ov_step_print]; cbn [step].
   - destruct (alookup n (st_ins s)) as [i|].
     + destruct (if is_cmd i then _ else _) as [code err]. cbn [fst]. unfold ov. cbn [st_overlap add_obs]. rewrite ov_if_print_errorf. reflexivity.
     + destruct (alookup n (st_outs s)) as [os|]; [|reflexivity].
@@ -355,10 +366,16 @@ Proof.
   eapply keep_trans; [|apply keep_scan_stream]. apply keep_fields; auto.
 Qed.
 
-Lemma step_usink k s o s' oc : usink k s -> step E s o = (s', oc) -> oc <> Fail -> usink k s'.
+Lemma printrec_as_print_direct s d rec : step E s (PrintRec d rec) = step E s (Print d [rec]).
 Proof.
-  intros Hu. destruct o as [d ps|n|[n|]|c|n|c| |code| |n]; cbn [step].
-  - pose proof (keep_get_output_stream s d) as H1. destruct (get_output_stream E s d) as [s1 [[|n]|]]; cbn [fst] in *.
+  cbn [step]. unfold step_print. destruct (get_output_stream E s d) as [s1 [[|n]|]]; auto.
+  unfold write_stdout_rec. destruct Hmode as [-> | ->]; reflexivity.
+Qed.
+
+Lemma step_print_usink k s d ps s' oc : usink k s -> step E s (Print d ps) = (s', oc) -> oc <> Fail -> usink k s'.
+Proof.
+  intros Hu. cbn [step]. unfold step_print.
+  pose proof (keep_get_output_stream s d) as H1. destruct (get_output_stream E s d) as [s1 [[|n]|]]; cbn [fst] in *.
     + destruct (write_stdout E s1 ps) as [s2 [|]] eqn:Ew; intros H Hoc; injection H as <- <-; [|congruence].
       apply (write_stdout_usink k s1 ps s2); auto. eapply usink_keep; eauto.
     + destruct (alookup n (st_outs s1)) as [os|]; [|intros H Hoc; injection H as <- <-; congruence].
@@ -368,6 +385,12 @@ Proof.
       { subst s1'. apply keep_add_log. destruct (os_kind os); exact I. }
       apply (keep_trans _ s2); auto. apply keep_fields; auto.
     + intros H Hoc; injection H as <- <-; congruence.
+Qed.
+
+Lemma step_usink k s o s' oc : usink k s -> step E s o = (s', oc) -> oc <> Fail -> usink k s'.
+Proof.
+  intros Hu. destruct o as [d ps|n|[n|]|c|n|c| |code| |n|d rec];
+    [apply step_print_usink; auto| | | | | | | | | | |rewrite printrec_as_print_direct; apply step_print_usink; auto]; cbn [step].
   - destruct (alookup n (st_ins s)) as [i|].
     + destruct (if is_cmd i then _ else _) as [code err]. intros H _; injection H as <- <-.
       eapply usink_keep; [|exact Hu]. assert (He : forall x, (if err then print_errorf E x else x) = x) by (intros; destruct err; auto using print_errorf_id).
